@@ -79,6 +79,10 @@ def case_reader(case):
         comps = []
         for k, nm in enumerate(first):
             comps.append(f'push("n{k}", #"{nm}") push("i{k}", #{k})')
+        # cells beyond the header record (rows longer than the header) are addressable by index
+        maxw = max((len(r_) for r_ in recs if r_), default=0)
+        for k in range(len(first), maxw):
+            comps.append(f'push("i{k}", #{k})')
         text = f"${path}[*][{' '.join(comps)}]"
         o2, _ = real_run.run_single(text, "collect", delimiter=case["delim"], quotechar=case["quote"], policy=["collect"])
         if "parse_error" in o2 or o2.get("raised"):
@@ -101,6 +105,12 @@ def case_reader(case):
                 mcol = [v for v, row in zip(m["by_index"][mi], recs) if row]
                 if mcol != byi:
                     res["disagree"].append({"what": "reader: header values", "header": nm, "real": byi, "model": mcol})
+        for k in range(len(first), maxw):
+            byi = o2["variables"].get(f"i{k}")
+            want_col = [(row[k].strip() if k < len(row) else None) for row in data]
+            if byi != want_col:
+                res["oracle"].append({"what": "an index beyond the header record does not read the cell of its column", "index": k,
+                                      "got": byi, "want": want_col})
         res["nontrivial"] = len(data) >= 2 and any(len(row) < len(first) for row in data)
     else:
         res["nontrivial"] = len(want) >= 2
